@@ -119,6 +119,7 @@ type Hist struct {
 	lastLog []string // storage/Lightning calls made by the last executed operation
 	sigSuffix string // appended to monitor signatures raised while judging a concurrent item
 	between func()  // run once between the next melt quote and its melt
+	ended  bool     // the mint did not come up again: nothing more can be asked of it
 }
 
 func (c cfgT) S() S {
@@ -590,6 +591,9 @@ func (m mode) wrap(op S) S {
 }
 
 func (h *Hist) exec(m mode, op S, f func() (any, error), okS func(any) S, learn ...func(any, opOutcome)) (any, error, opOutcome) {
+	if h.ended {
+		return nil, errors.New("the history has ended: the mint is not running"), opOutcome{err: errors.New("ended")}
+	}
 	crashAt := -1
 	faults := map[int]bool{}
 	if m.kind == 1 {
@@ -678,6 +682,9 @@ func logS(log []string, crashed bool) S {
 }
 
 func (h *Hist) env(op S) {
+	if h.ended {
+		return
+	}
 	h.items = append(h.items, L(A(0), op))
 	h.obs = append(h.obs, L(L(A(5)), h.snapshot(), LL(nil)))
 	h.lastSnap = h.snapshotN(true).String()
@@ -686,6 +693,9 @@ func (h *Hist) env(op S) {
 // ---------------- operations ----------------
 
 func (h *Hist) OpRestart(fee uint, rotate bool) {
+	if h.ended {
+		return
+	}
 	h.tm.M.Shutdown()
 	h.tm.Cfg.InputFeePpk = fee
 	h.tm.Cfg.RotateKeyset = rotate
@@ -705,13 +715,19 @@ func (h *Hist) OpRestart(fee uint, rotate bool) {
 		h.obs = append(h.obs, L(L(A(9)), L(LL(nil), LL(nil), LL(nil), LL(nil), LL(nil), LL(nil), LL(nil)), LL(nil)))
 		h.sink.Note(fmt.Sprintf("LoadMint panicked: %v", panicked))
 		h.stats["op=restart-panicked"]++
+		h.ended = true
 		return
 	}
 	if err != nil {
+		if !h.cuts {
+			// C09: the keysets reappear after every restart - a mint that was running and does not come up again has lost them all
+			h.sink.Violate("mint-cannot-start", fmt.Sprintf("LoadMint on the mint's own directory fails: %v", err), op.String(), LL(h.items).String())
+		}
 		r = h.failS(err)
 		h.items = append(h.items, L(A(0), op))
 		h.obs = append(h.obs, L(r, L(LL(nil), LL(nil), LL(nil), LL(nil), LL(nil), LL(nil), LL(nil)), LL(nil)))
 		h.sink.Note("LoadMint failed: " + err.Error())
+		h.ended = true
 		return
 	}
 	h.dead = false
@@ -728,6 +744,9 @@ func (h *Hist) OpRestart(fee uint, rotate bool) {
 // Reconfigure: the operator stops the mint, changes limits / MPP support in its configuration and starts it again on the
 // same directory.  Item (4 cfg): the model continues with the new configuration; the restart itself is the usual ORestart.
 func (h *Hist) Reconfigure(c cfgT) {
+	if h.ended {
+		return
+	}
 	c.feePct, c.fee0 = h.cfg.feePct, h.cfg.fee0
 	h.cfg = c
 	h.tm.Cfg.EnableMPP = c.mpp
@@ -1407,6 +1426,9 @@ func (h *Hist) rowsS(m map[string]uint64) S {
 
 // OpAdmin sends one request to the admin dispatcher and records the answer in the model's vocabulary.
 func (h *Hist) OpAdmin(r adminReq) {
+	if h.ended {
+		return
+	}
 	reqS, params := h.adminReqS(r)
 	res, jerr := manager.VerifServer(h.tm.M).VerifProcess(manager.Request{JsonRPC: "2.0", Method: r.method, Params: params, Id: 7})
 	var out S
